@@ -3,7 +3,7 @@
    answer membership and is meaningful for infinite streams too. *)
 From Coq Require Import List Permutation ZArith.
 From PV Require Import Model.Term Model.Subst Model.State Model.Engine Spec.StreamSem
-  Proofs.StreamProofs Proofs.EngineProofs Gen.RelDefs.
+  Proofs.StreamProofs Proofs.EngineProofs Proofs.SemProofs Proofs.MonoProofs Gen.RelDefs.
 Import ListNotations.
 
 (* finite search: what the engine delivers until the stream is exhausted is admissible *)
@@ -54,6 +54,16 @@ Example C06_example :
   = Some [Some (tnum 1); Some (tnum 3); Some (tnum 2)].
 Proof. vm_compute. reflexivity. Qed.
 
+(* "invents none", declaratively: whatever the engine delivers - interleaving or depth-first, any
+   fuel, after any number of steps - is an answer of the goal in the big-step semantics Sem
+   (conjunction = composition, disjunction = union, calls = their constructed bodies), which knows
+   nothing of streams or scheduling; and its substitution extends the one the goal started from *)
+Theorem C06_sound_declarative : forall defs k u n g st a rest u',
+  next defs k u (start defs n g st) = NAnswer a rest u' -> Sem defs g st a.
+Proof. exact next_sound_goal. Qed.
+Theorem C06_answers_extend : forall defs g st a, Sem defs g st a -> exists new, st_smap a = new ++ st_smap st.
+Proof. exact Sem_ext. Qed.
+
 Check C06_disjunction : forall defs m n st gs zs,
   ansS (start defs (S m)) (start defs (S n) (CConde BFS gs) st) zs ->
   exists yss, Forall2 (fun c ys => ansS (start defs (S m)) (start defs n c st) ys) gs yss /\ Permutation zs (concat yss).
@@ -64,3 +74,5 @@ Print Assumptions C06_conjunction.
 Print Assumptions C06_sound.
 Print Assumptions C06_sound_disjunction.
 Print Assumptions C06_sound_conjunction.
+Print Assumptions C06_sound_declarative.
+Print Assumptions C06_answers_extend.
